@@ -932,35 +932,7 @@ func c04Encoder(c *Ctx, r *Report) {
 		return true
 	})
 	r.check(okSum, "C04-R6-encoder-pairing", "Encode/crc-value", c.pos(fd.Pos()), "the CRC written is the hash's Sum16", "the value written as CRC is not the Sum16 of the hash")
-	// the pairing above compares what is hashed with what is written by expression; that is sound only
-	// if the bytes cannot change between the two, i.e. the record buffer is private to this call:
-	// nothing Encode reaches uses a sync primitive (pools), a goroutine or a channel.
-	if encFn := c.ssaFn(c.fn(c.fit, "Encode")); encFn != nil {
-		shared := ""
-		nFn := 0
-		for _, fn := range c.reach([]*ssa.Function{encFn}).module() {
-			if !inLib(fn) {
-				continue
-			}
-			nFn++
-			for _, b := range fn.Blocks {
-				for _, ins := range b.Instrs {
-					switch ins.(type) {
-					case *ssa.Go, *ssa.Send, *ssa.Select, *ssa.MakeChan:
-						shared = fn.Name() + " at " + c.pos(ins.Pos())
-					}
-					if call, ok := ins.(ssa.CallInstruction); ok {
-						if cal := call.Common().StaticCallee(); cal != nil && cal.Pkg != nil {
-							if pp := cal.Pkg.Pkg.Path(); pp == "sync" || pp == "sync/atomic" {
-								shared = cal.String() + " in " + fn.Name() + " at " + c.pos(ins.Pos())
-							}
-						}
-					}
-				}
-			}
-		}
-		r.check(shared == "" && nFn > 5, "C04-R6-encoder-pairing", "Encode/private-buffer", c.pos(encFn.Pos()), fmt.Sprintf("%d functions reachable from Encode: no pool, lock, goroutine or channel; the hashed bytes cannot change before they are written", nFn), "Encode reaches "+shared+": the record buffer can be shared with another call (pooled), so the bytes that were hashed need not be the bytes that are written and a successful Encode can produce a file that fails CheckIntegrity")
-	}
+	encodePrivateBuffer(c, r, "C04-R6-encoder-pairing")
 }
 
 // c04VerdictPropagation (R7): an integrity verdict, once produced, reaches the caller. The
@@ -1085,4 +1057,39 @@ func c04VerdictPropagation(c *Ctx, r *Report) {
 	r.set("verdict_origins", nOrigins)
 	r.need("functions creating an IntegrityError", nOrigins, 2)
 	r.need("calls of verdict carriers", n, 5)
+}
+
+// encodePrivateBuffer: the record buffer is private to one Encode call: nothing Encode reaches uses
+// a sync primitive (pools), a goroutine or a channel. Premise of the hash/output pairing (C04), of
+// "the stream is what this call produced" (C05) and of re-encodability (C07).
+func encodePrivateBuffer(c *Ctx, r *Report, rule string) {
+	// the pairing above compares what is hashed with what is written by expression; that is sound only
+	// if the bytes cannot change between the two, i.e. the record buffer is private to this call:
+	// nothing Encode reaches uses a sync primitive (pools), a goroutine or a channel.
+	if encFn := c.ssaFn(c.fn(c.fit, "Encode")); encFn != nil {
+		shared := ""
+		nFn := 0
+		for _, fn := range c.reach([]*ssa.Function{encFn}).module() {
+			if !inLib(fn) {
+				continue
+			}
+			nFn++
+			for _, b := range fn.Blocks {
+				for _, ins := range b.Instrs {
+					switch ins.(type) {
+					case *ssa.Go, *ssa.Send, *ssa.Select, *ssa.MakeChan:
+						shared = fn.Name() + " at " + c.pos(ins.Pos())
+					}
+					if call, ok := ins.(ssa.CallInstruction); ok {
+						if cal := call.Common().StaticCallee(); cal != nil && cal.Pkg != nil {
+							if pp := cal.Pkg.Pkg.Path(); pp == "sync" || pp == "sync/atomic" {
+								shared = cal.String() + " in " + fn.Name() + " at " + c.pos(ins.Pos())
+							}
+						}
+					}
+				}
+			}
+		}
+		r.check(shared == "" && nFn > 5, rule, "Encode/private-buffer", c.pos(encFn.Pos()), fmt.Sprintf("%d functions reachable from Encode: no pool, lock, goroutine or channel; the hashed bytes cannot change before they are written", nFn), "Encode reaches "+shared+": the record buffer can be shared with another call (pooled), so the bytes that were hashed need not be the bytes that are written and a successful Encode can produce a file that fails CheckIntegrity")
+	}
 }
